@@ -713,6 +713,15 @@ impl<'a> WfCodec<'a> {
         }
         Self::apdu([0x04, 0x0c], Self::with_06(Self::tlv_file(&f)))
     }
+    /// 04 0C request for data that carries further elements of the file container (a size, a payload of its own) in
+    /// front of / behind the id and the offset
+    pub fn request_with(id: u8, offset: u32, before: &[(u16, Vec<u8>)], behind: &[(u16, Vec<u8>)]) -> Vec<u8> {
+        let mut f = before.to_vec();
+        f.push((0x1d, vec![id]));
+        f.push((0x1e, offset.to_be_bytes().to_vec()));
+        f.extend(behind.iter().cloned());
+        Self::apdu([0x04, 0x0c], Self::with_06(Self::tlv_file(&f)))
+    }
     /// 80 00 data block answering (id, offset)
     pub fn data_block(id: u8, offset: u32, payload: &[u8]) -> Vec<u8> {
         let mut f = vec![(0x1d, vec![id]), (0x1e, offset.to_be_bytes().to_vec())];
@@ -1132,6 +1141,11 @@ fn malformed(schema: &Schema, pools: &Pools, rng: &mut Rng, key: &str) -> Vec<(&
     // an inner (non-repeated) length-prefixed element, at any depth, announces more bytes than its container holds; the
     // enclosing lengths are consistent
     fn overrun_inner(n: &mut refcodec::codec::Node, rng: &mut Rng, depth: usize) -> bool {
+        overrun_or_bad_form(n, rng, depth, false)
+    }
+    // `bad_form`: instead of overrunning, the element's length is written in a form the codec does not support (first
+    // byte 80 or 83..FF)
+    fn overrun_or_bad_form(n: &mut refcodec::codec::Node, rng: &mut Rng, depth: usize, bad_form: bool) -> bool {
         let Payload::Struct(s) = &mut n.payload else { return false };
         let mut order: Vec<usize> = (0..s.groups.len()).collect();
         rng.shuffle(&mut order);
@@ -1146,10 +1160,19 @@ fn malformed(schema: &Schema, pools: &Pools, rng: &mut Rng, key: &str) -> Vec<(&
                     Payload::Leaf(b) => b.len(),
                     Payload::Struct(st) => st.bytes().map(|b| b.len()).unwrap_or(0),
                 };
-                e.prefix_override = refcodec::codec::ber_len(plen + 1 + rng.below(6) as usize);
+                e.prefix_override = if bad_form {
+                    Some(match rng.below(4) {
+                        0 => vec![0x80],
+                        1 => vec![0x83, 0, (plen >> 8) as u8, plen as u8],
+                        2 => vec![0x84, 0, 0, (plen >> 8) as u8, plen as u8],
+                        _ => vec![0x83 + rng.below(0x7d) as u8],
+                    })
+                } else {
+                    refcodec::codec::ber_len(plen + 1 + rng.below(6) as usize)
+                };
                 return true;
             }
-            if overrun_inner(e, rng, depth + 1) {
+            if overrun_or_bad_form(e, rng, depth + 1, bad_form) {
                 return true;
             }
         }
@@ -1170,15 +1193,30 @@ fn malformed(schema: &Schema, pools: &Pools, rng: &mut Rng, key: &str) -> Vec<(&
             }
         }
     }
+    for _ in 0..40 {
+        let v = gen.gen_struct(rng, def, Presence::Random, 0);
+        if codec.canonical(def, &v).is_err() {
+            continue;
+        }
+        let Ok(mut t) = codec.enc_top(def, &v) else { continue };
+        if overrun_or_bad_form(&mut t, rng, 0, true) {
+            if let Some(b) = t.bytes() {
+                if b.len() <= 900 {
+                    cands.push(("inner-element-with-an-unsupported-length-form", b));
+                    break;
+                }
+            }
+        }
+    }
     // keep only those the reference decoder rejects for a reason the codec properties make mandatory
-    cands.retain(|(_, b)| matches!(codec.decode(def, b), Err(refcodec::codec::RefErr::Incomplete | refcodec::codec::RefErr::Duplicate(_) | refcodec::codec::RefErr::Missing(_))));
+    cands.retain(|(_, b)| matches!(codec.decode(def, b), Err(refcodec::codec::RefErr::Incomplete | refcodec::codec::RefErr::Duplicate(_) | refcodec::codec::RefErr::Missing(_) | refcodec::codec::RefErr::UnsupportedLen)));
     cands
 }
 
 pub fn run_c06(ctx: &Ctx) -> i32 {
     let mut report = ctx.report("C06", "fault_enumeration");
     let depth = ctx.by(4usize, 6usize);
-    report.rule = format!("18 streams x every valid prefix of non-final replies of length <= {depth} x fault kinds {{NACK 84xx in place of a packet (all 256 codes at the acknowledgement position; in addition every one of the 65535 control fields other than 80 00 as a bare packet in place of the acknowledgement, with the regular script queued behind it), the same followed by the regular script (a terminal that did not notice), control field outside the reply set, malformed body for a control field inside the set (rejected by the reference decoder as incomplete/duplicate/missing: top-level duplicate tag, value cut short, missing positional field, a later element of a repeated field, or an inner non-repeated element at any depth, announcing more than its container holds), packet truncated at every offset followed by end of stream, clean end of stream at the packet boundary}} at every position (the acknowledgement position included), chunking whole / byte-wise; for WriteFile additionally every fault kind right behind (or inside) a complete upload of small firmware/application files, and requests that decode but cannot be served (no file id, no offset, unknown id, no file element) after any number of good requests, alone and followed by a good request and the completion. Oracle over the event log: the valid prefix is processed exactly as in C05; after the first faulty byte was delivered there is no write at all, exactly one Err item, then End (no parking). Non-trivial = every fault scenario; distinct by hash of (stream, prefix bytes, fault bytes, position, chunking).");
+    report.rule = format!("18 streams x every valid prefix of non-final replies of length <= {depth} x fault kinds {{NACK 84xx in place of a packet (all 256 codes at the acknowledgement position; in addition every one of the 65535 control fields other than 80 00 as a bare packet in place of the acknowledgement, with the regular script queued behind it), the same followed by the regular script (a terminal that did not notice), control field outside the reply set, malformed body for a control field inside the set (rejected by the reference decoder as incomplete/duplicate/missing: top-level duplicate tag, value cut short, missing positional field, a later element of a repeated field, or an inner non-repeated element at any depth, announcing more than its container holds; an inner element whose length is written in an unsupported form 80 / 83..FF), packet truncated at every offset followed by end of stream, clean end of stream at the packet boundary}} at every position (the acknowledgement position included), chunking whole / byte-wise; for WriteFile additionally every fault kind right behind (or inside) a complete upload of small firmware/application files, and requests that decode but cannot be served (no file id, no offset, unknown id, no file element) after any number of good requests, alone and followed by a good request and the completion. Oracle over the event log: the valid prefix is processed exactly as in C05; after the first faulty byte was delivered there is no write at all, exactly one Err item, then End (no parking). Non-trivial = every fault scenario; distinct by hash of (stream, prefix bytes, fault bytes, position, chunking).");
     report.exhaustive = Some(true);
     report.assumptions = vec!["malformed bodies are restricted to those whose rejection follows from C02/C13/C14 (top-level duplicate tag, value cut short, missing positional field, a later element of a repeated field overrunning its container)".into()];
     let schema = refcodec::zvt_schema();
